@@ -59,6 +59,14 @@ func (w *recWriter) Close() error {
 
 var _ io.Closer = (*recWriter)(nil)
 
+// plainWriter hides Close: logger.Switch sees a writer that is not an io.Closer.
+type plainWriter struct{ w *recWriter }
+
+func (p plainWriter) Write(b []byte) (int, error) { return p.w.Write(b) }
+
+// VERIF_C18_PLAIN=1 (part "plain") must run in a process where no io.Closer writer was ever installed.
+func plainWriterMode() bool { return os.Getenv("VERIF_C18_PLAIN") == "1" }
+
 // ---------------------------------------------------------------------------------------------
 // context kinds
 
@@ -656,7 +664,13 @@ func (t *tally) add(name string, n int64) { t.cnt[name] += n }
 
 func runOnce(m *mon.M, own *owners, run, nG, perG int, pid string) {
 	w := &recWriter{}
-	logger.Switch(w) // quiescent: no other goroutine is logging
+	if plainWriterMode() {
+		// a writer that is NOT an io.Closer: the library then takes its coloured-console path for warn/error
+		// (colour escapes go to os.Stdout, i.e. into the part log; the line itself must still reach the writer whole)
+		logger.Switch(plainWriter{w})
+	} else {
+		logger.Switch(w) // quiescent: no other goroutine is logging
+	}
 	rs := &runState{run: run, nG: nG, pub: make([][]atomic.Pointer[ctxRec], nG)}
 	for g := range rs.pub {
 		rs.pub[g] = make([]atomic.Pointer[ctxRec], pubSlots)
@@ -892,7 +906,11 @@ func runOnce(m *mon.M, own *owners, run, nG, perG int, pid string) {
 }
 
 func TestVerif_C18_Conc(t *testing.T) {
-	m := mon.New("C18", "conc")
+	part := "conc"
+	if plainWriterMode() {
+		part = "plain"
+	}
+	m := mon.New("C18", part)
 	defer m.Finish(t)
 	m.Rule("runs of N in {2..64} goroutines released together; each makes contexts {WithContext (also in tight batches of 2..64), AliasContext of " +
 		"contexts published by other goroutines, AliasContext without source id, Cid() objects (pointer/value), id-less context.Context, nil} and logs " +
@@ -906,6 +924,9 @@ func TestVerif_C18_Conc(t *testing.T) {
 
 	runs := m.N(50, 2000)
 	total := m.N(3600, 1200) // contexts per run, spread over the run's goroutines
+	if plainWriterMode() {
+		runs = m.N(12, 200) // same workload, fewer runs: every warn/error call also writes colour escapes to stdout
+	}
 	pid := strconv.Itoa(os.Getpid())
 	own := &owners{other: map[int]uint32{}}
 	sizes := []int{2, 3, 4, 8, 16, 16, 16, 32, 64, 16, 5, 16, 24, 16, 48, 16}
